@@ -19,13 +19,41 @@ impl Guarded {
     fn guards_intact(&self) -> bool { self.buf[.. GUARD].iter().all(|b| *b == CANARY) && self.buf[GUARD + self.cap ..].iter().all(|b| *b == CANARY) }
 }
 
-/// An io::Write that accepts at most `cap` bytes in total, in pieces of at most `piece`.
-struct Limited { data: Vec<u8>, cap: usize, piece: usize }
+/// An io::Write that accepts at most `cap` bytes in total, in pieces of at most `piece`; the first calls follow a
+/// generated script: script byte 0 = an `Interrupted` error (nothing consumed - the transient kind every `write_all`
+/// loop must retry), any other byte b = a short write of at most b bytes.  With `vectored`, `write_vectored` is native
+/// (it takes bytes across buffer boundaries) instead of std's default (first non-empty buffer only).
+pub struct Limited { pub data: Vec<u8>, pub cap: usize, pub piece: usize, pub script: Vec<u8>, pub k: usize, pub vectored: bool, pub interrupts: usize, pub calls: usize }
+impl Limited {
+    pub fn new(cap: usize, piece: usize) -> Self { Limited { data: Vec::new(), cap, piece, script: Vec::new(), k: 0, vectored: false, interrupts: 0, calls: 0 } }
+    pub fn scripted(g: &mut Gen, cap: usize) -> Self {
+        let piece = 1 + g.below(7);
+        let n = g.below(12);
+        let mut script: Vec<u8> = (0 .. n).map(|_| if g.chance(30) { 0 } else { 1 + g.below(9) as u8 }).collect();
+        // the pattern a socket under pressure shows: part of a buffer accepted, then an interrupted call
+        if g.chance(30) { let at = g.below(script.len() + 1); script.splice(at .. at, [1 + g.below(3) as u8, 0]); }
+        Limited { data: Vec::new(), cap, piece, script, k: 0, vectored: g.bool(), interrupts: 0, calls: 0 }
+    }
+    fn step(&mut self) -> Option<usize> {
+        self.calls += 1;
+        let s = self.script.get(self.k).copied(); self.k += 1;
+        match s { Some(0) => { self.interrupts += 1; None } Some(b) => Some(b as usize), None => Some(self.piece.max(1)) }
+    }
+}
 impl std::io::Write for Limited {
     fn write(&mut self, b: &[u8]) -> std::io::Result<usize> {
+        let Some(piece) = self.step() else { return Err(std::io::ErrorKind::Interrupted.into()) };
         let room = self.cap - self.data.len();
-        let n = b.len().min(room).min(self.piece.max(1));
+        let n = b.len().min(room).min(piece);
         self.data.extend_from_slice(&b[.. n]);
+        Ok(n)
+    }
+    fn write_vectored(&mut self, bufs: &[std::io::IoSlice<'_>]) -> std::io::Result<usize> {
+        if !self.vectored { return match bufs.iter().find(|b| !b.is_empty()) { Some(b) => self.write(b), None => self.write(&[]) } }
+        let Some(piece) = self.step() else { return Err(std::io::ErrorKind::Interrupted.into()) };
+        let mut left = (self.cap - self.data.len()).min(piece);
+        let mut n = 0;
+        for b in bufs { let k = b.len().min(left); self.data.extend_from_slice(&b[.. k]); n += k; left -= k; if left == 0 { break } }
         Ok(n)
     }
     fn flush(&mut self) -> std::io::Result<()> { Ok(()) }
@@ -92,10 +120,9 @@ fn sink_suite<V: minicbor::Encode<()>>(v: &V, e: &[u8], cap: usize, g: &mut Gen)
         let r = minicbor::encode(v, &mut out);
         ensure!(r.is_ok() && out[3 ..] == e[..] && out[.. 3] == [0xee; 3], "vec-sink", "Vec sink holds {} for encoding {}", short_hex(&out), short_hex(e));
     }
-    // 6. std::io writer through the adapter, short writes of 1..7 bytes, total limit `cap`
+    // 6. std::io writer through the adapter: short writes, interrupted calls, native or default write_vectored, total limit `cap`
     {
-        let piece = 1 + g.below(7);
-        let mut w = Writer::new(Limited { data: Vec::new(), cap, piece });
+        let mut w = Writer::new(Limited::scripted(g, cap));
         let r = minicbor::encode(v, &mut w);
         let data = &w.get_ref().data;
         ensure!(data.len() <= cap, "overrun", "io writer accepted {} bytes with limit {}", data.len(), cap);
